@@ -11,6 +11,7 @@ set_option linter.unusedVariables false
 
 namespace PCV
 namespace PST
+open PCV.MV
 variable {F : Type} [Field F]
 
 /-! ### single terms -/
@@ -762,14 +763,48 @@ theorem msmAll_length (look : Term → Except Err F) (ws : List (MVPoly F)) (xs 
         injection h with h
         simp [← h, ih xs' hxs]
 
-/-- what `open` returns on the combined polynomials `(p̂, r̂)` under a well-formed key:
-the verifier's defect on `C = g·p̂(β⃗) + γ·r̂(β⃗)`, `V = p̂(z)` vanishes. -/
-theorem openCombined_defect (g γ h : F) (β : List F) (ts : List Term) (nv s D m : Nat)
-    (p r : MVPoly F) (z : List F) (π : Proof F)
-    (hp : polyWf p = true) (hpv : polyVarsBelow nv p = true)
-    (hr : polyWf r = true) (hrv : polyVarsBelow nv r = true)
+theorem resizeTo_length (n : Nat) (ws : List (MVPoly F)) : (resizeTo n ws).length = n := by
+  unfold resizeTo
+  simp only [List.length_append, List.length_take, List.length_replicate]
+  omega
+
+theorem mem_resizeTo (n : Nat) (ws : List (MVPoly F)) (q : MVPoly F) (h : q ∈ resizeTo n ws) :
+    q ∈ ws ∨ q = [] := by
+  unfold resizeTo at h
+  rcases List.mem_append.1 h with h | h
+  · exact Or.inl (List.mem_of_mem_take h)
+  · exact Or.inr (List.eq_of_mem_replicate h)
+
+theorem quotSum_append (x z : List F) (i : Nat) (a b : List (MVPoly F)) :
+    quotSum x z i (a ++ b) = quotSum x z i a + quotSum x z (i + a.length) b := by
+  induction a generalizing i with
+  | nil => simp [quotSum]
+  | cons w a ih =>
+    simp only [List.cons_append, quotSum, ih (i + 1), List.length_cons]
+    rw [show i + 1 + a.length = i + (a.length + 1) by omega]; ring
+
+/-- padding with zero quotients does not change `Σ (xᵢ − zᵢ)·wᵢ(x)` -/
+theorem quotSum_resizeTo (x z : List F) (n : Nat) (ws : List (MVPoly F)) (h : ws.length ≤ n) :
+    quotSum x z 0 (resizeTo n ws) = quotSum x z 0 ws := by
+  unfold resizeTo
+  rw [List.take_of_length_le h, quotSum_append, quotSum_replicate_nil]; ring
+
+theorem resizeTo_terms (P : Term → Prop) (n : Nat) (ws : List (MVPoly F))
+    (h : ∀ w ∈ ws, ∀ t ∈ termsOf w, P t) : ∀ w ∈ resizeTo n ws, ∀ t ∈ termsOf w, P t := by
+  intro w hw t ht
+  rcases mem_resizeTo n ws w hw with hw | rfl
+  · exact h w hw t ht
+  · simp [termsOf] at ht
+
+/-- what `open` returns on the combined polynomials `(p̂, r̂)` — declared over `nvp`, `nvr ≤ nv`
+variables — under a well-formed key: the verifier's defect on `C = g·p̂(β⃗) + γ·r̂(β⃗)`,
+`V = p̂(z)` vanishes, and there is one witness per variable of the key. -/
+theorem openCombined_defect (g γ h : F) (β : List F) (ts : List Term) (nv s D m nvp nvr : Nat)
+    (p r : MVPoly F) (z : List F) (π : Proof F) (hnvp : nvp ≤ nv) (hnvr : nvr ≤ nv)
+    (hp : polyWf p = true) (hpv : polyVarsBelow nvp p = true)
+    (hr : polyWf r = true) (hrv : polyVarsBelow nvr r = true)
     (hru : ∀ t ∈ termsOf r, isUni t = true)
-    (ho : openCombined (wfCK g γ β ts nv s D m) nv nv p r z = .ok π) :
+    (ho : openCombined (wfCK g γ β ts nv s D m) nvp nvr p r z = .ok π) :
     defectCombined (wfVK g γ h β nv s D) (g * evalMV p β + γ * evalMV r β) (evalMV p z) z π = 0
       ∧ π.w.length = nv := by
   unfold openCombined at ho
@@ -778,9 +813,10 @@ theorem openCombined_defect (g γ h : F) (β : List F) (ts : List Term) (nv s D 
   · cases ho
   · rename_i w hw
     have hwlen := msmAll_length _ _ _ hw
-    rw [divideAtPoint_length] at hwlen
+    rw [resizeTo_length] at hwlen
     have hwspec := msmAll_spec _ g β _ w (fun _ _ t _ b hb => lookG_wf g β ts t b hb) hw
-    have hexp := divideAtPoint_exact nv p z β hp hpv
+    have hexp := divideAtPoint_exact nvp p z β hp hpv
+    rw [← quotSum_resizeTo β z nv _ (by rw [divideAtPoint_length]; exact hnvp)] at hexp
     split at ho
     · rename_i hz
       injection ho with ho
@@ -797,13 +833,16 @@ theorem openCombined_defect (g γ h : F) (β : List F) (ts : List Term) (nv s D 
         · cases ho
         · injection ho with ho
           subst ho
-          have huq : ∀ q ∈ divideAtPoint nv r z, ∀ t ∈ termsOf q, isUni t = true :=
-            divideAtPoint_terms (fun t => isUni t = true) isUni_rem isUni_quot nv r z hru
+          have huq : ∀ q ∈ resizeTo nv (divideAtPoint nvr r z), ∀ t ∈ termsOf q, isUni t = true :=
+            resizeTo_terms (fun t => isUni t = true) nv _
+              (divideAtPoint_terms (fun t => isUni t = true) isUni_rem isUni_quot nvr r z hru)
           have hspec := addHiding_spec _ γ β w _ w'
             (fun q hq t ht b hb => gammaBase_wf γ β nv m t b (huq q hq t ht) hb) hw'
-          have hexr := divideAtPoint_exact nv r z β hr hrv
-          have hlen2 : (divideAtPoint nv p z).length = (divideAtPoint nv r z).length := by
-            rw [divideAtPoint_length, divideAtPoint_length]
+          have hexr := divideAtPoint_exact nvr r z β hr hrv
+          rw [← quotSum_resizeTo β z nv _ (by rw [divideAtPoint_length]; exact hnvr)] at hexr
+          have hlen2 : (resizeTo nv (divideAtPoint nvp p z)).length
+              = (resizeTo nv (divideAtPoint nvr r z)).length := by
+            rw [resizeTo_length, resizeTo_length]
           refine ⟨?_, ?_⟩
           · unfold defectCombined wfVK
             simp only [rvVal]
@@ -811,20 +850,21 @@ theorem openCombined_defect (g γ h : F) (β : List F) (ts : List Term) (nv s D 
               ← hexp, ← hexr]
             ring
           · simp only
-            rw [hspec.1, List.length_zipWith, hwlen, divideAtPoint_length]
+            rw [hspec.1, List.length_zipWith, hwlen, resizeTo_length]
             simp
 
 /-- **Completeness for the challenge-combined list.**  Key well-formed for the trapdoor `β⃗`;
 polynomials and blinding polynomials built by the library over `nv` variables (blinding terms
 univariate); whenever the prover returns a proof, the verifier accepts the true values under the
 same challenges. -/
-theorem open_check_complete (g γ h : F) (β : List F) (ts : List Term) (nv s D m : Nat)
+theorem open_check_complete (g γ h : F) (β : List F) (ts : List Term) (nv s D m nvp nvr : Nat)
     (ps rs : List (MVPoly F)) (z ξs : List F) (π : Proof F)
+    (hnvp : nvp ≤ nv) (hnvr : nvr ≤ nv)
     (hlen : ps.length = rs.length)
-    (hps : ∀ p ∈ ps, polyWf p = true ∧ polyVarsBelow nv p = true)
-    (hrs : ∀ r ∈ rs, polyWf r = true ∧ polyVarsBelow nv r = true ∧ ∀ t ∈ termsOf r, isUni t = true)
+    (hps : ∀ p ∈ ps, polyWf p = true ∧ polyVarsBelow nvp p = true)
+    (hrs : ∀ r ∈ rs, polyWf r = true ∧ polyVarsBelow nvr r = true ∧ ∀ t ∈ termsOf r, isUni t = true)
     (hβ : nv ≤ β.length) (hz : nv ≤ z.length)
-    (ho : PST.open (wfCK g γ β ts nv s D m) nv nv ps z rs ξs = .ok π) :
+    (ho : PST.open (wfCK g γ β ts nv s D m) nvp nvr ps z rs ξs = .ok π) :
     check (wfVK g γ h β nv s D) (comms g γ β ps rs) z (ps.map (fun p => evalMV p z)) π ξs
       = .ok true := by
   unfold PST.open at ho
@@ -837,17 +877,17 @@ theorem open_check_complete (g γ h : F) (β : List F) (ts : List Term) (nv s D 
       (fun p hp => (polyWf_iff p).1 (hps p hp).1) (fun r hr => (polyWf_iff r).1 (hrs r hr).1)
     have h1 := combine_terms (fun t => Term.wf t = true) _ [] [] ps rs ξs c hc (hnil _)
       (fun p hp => (polyWf_iff p).1 (hps p hp).1)
-    have h2 := combine_terms (fun t => Term.varsBelow nv t = true) _ [] [] ps rs ξs c hc (hnil _)
-      (fun p hp => (polyVarsBelow_iff nv p).1 (hps p hp).2)
+    have h2 := combine_terms (fun t => Term.varsBelow nvp t = true) _ [] [] ps rs ξs c hc (hnil _)
+      (fun p hp => (polyVarsBelow_iff nvp p).1 (hps p hp).2)
     have h3 := combine_terms_r (fun t => Term.wf t = true) _ [] [] ps rs ξs c hc (hnil _)
       (fun r hr => (polyWf_iff r).1 (hrs r hr).1)
-    have h4 := combine_terms_r (fun t => Term.varsBelow nv t = true) _ [] [] ps rs ξs c hc (hnil _)
-      (fun r hr => (polyVarsBelow_iff nv r).1 (hrs r hr).2.1)
+    have h4 := combine_terms_r (fun t => Term.varsBelow nvr t = true) _ [] [] ps rs ξs c hc (hnil _)
+      (fun r hr => (polyVarsBelow_iff nvr r).1 (hrs r hr).2.1)
     have h5 := combine_terms_r (fun t => isUni t = true) _ [] [] ps rs ξs c hc (hnil _)
       (fun r hr => (hrs r hr).2.2)
-    obtain ⟨hd, hwl⟩ := openCombined_defect g γ h β ts nv s D m c.1 c.2.1 z π
-      ((polyWf_iff _).2 h1) ((polyVarsBelow_iff nv _).2 h2) ((polyWf_iff _).2 h3)
-      ((polyVarsBelow_iff nv _).2 h4) h5 ho
+    obtain ⟨hd, hwl⟩ := openCombined_defect g γ h β ts nv s D m nvp nvr c.1 c.2.1 z π hnvp hnvr
+      ((polyWf_iff _).2 h1) ((polyVarsBelow_iff nvp _).2 h2) ((polyWf_iff _).2 h3)
+      ((polyVarsBelow_iff nvr _).2 h4) h5 ho
     unfold check
     rw [hacc]
     simp only [evalMV_nil, sub_zero, zero_add, hd]
@@ -948,19 +988,21 @@ theorem check_iff_defect (vk : VK F) (cs z vs : List F) (π : Proof F) (ξs : Li
 /-- **One polynomial: the verifier's decision on an arbitrary changed claim.**  With
 `(c, r)` from `commit` and `π` from `open` at `z`, the check of the claim
 `(c + dc, z, p(z) + dv)` decides `(dc − g·dv)·ξ·h = 0`. -/
-theorem single_check_eq (g γ h : F) (β : List F) (ts : List Term) (nv s D m : Nat) (p : MVPoly F)
+theorem single_check_eq (g γ h : F) (β : List F) (ts : List Term) (nv s D m nvp nvr : Nat)
+    (p : MVPoly F)
     (hb : Option Nat) (rng : Bool) (draws : List F) (c : F) (r : MVPoly F) (rest : List F)
     (z : List F) (ξ : F) (ξs : List F) (π : Proof F) (dc dv : F)
-    (hp : polyWf p = true) (hpv : polyVarsBelow nv p = true)
+    (hnvp : nvp ≤ nv) (hnvr : nvr ≤ nv)
+    (hp : polyWf p = true) (hpv : polyVarsBelow nvp p = true) (hrv' : polyVarsBelow nvr r = true)
     (hβ : nv ≤ β.length) (hz : nv ≤ z.length)
     (hc : commit (wfCK g γ β ts nv s D m) p hb rng draws = .ok (c, r, rest))
-    (ho : PST.open (wfCK g γ β ts nv s D m) nv nv [p] z [r] (ξ :: ξs) = .ok π) :
+    (ho : PST.open (wfCK g γ β ts nv s D m) nvp nvr [p] z [r] (ξ :: ξs) = .ok π) :
     check (wfVK g γ h β nv s D) [c + dc] z [evalMV p z + dv] π (ξ :: ξs)
       = .ok (decide ((dc - g * dv) * ξ * h = 0)) := by
   obtain ⟨hcs, hrw, hrv, hru, _⟩ := commit_spec g γ β ts nv s D m p hb rng draws c r rest hc
-  have hcomp := open_check_complete g γ h β ts nv s D m [p] [r] z (ξ :: ξs) π rfl
+  have hcomp := open_check_complete g γ h β ts nv s D m nvp nvr [p] [r] z (ξ :: ξs) π hnvp hnvr rfl
     (fun q hq => by simp only [List.mem_singleton] at hq; subst hq; exact ⟨hp, hpv⟩)
-    (fun q hq => by simp only [List.mem_singleton] at hq; subst hq; exact ⟨hrw, hrv, hru⟩)
+    (fun q hq => by simp only [List.mem_singleton] at hq; subst hq; exact ⟨hrw, hrv', hru⟩)
     hβ hz ho
   simp only [comms, List.zipWith_cons_cons, List.zipWith_nil_right, List.map_cons, List.map_nil,
     ← hcs] at hcomp
@@ -1246,11 +1288,11 @@ polynomials of degree `≤ s`, blinding polynomials with univariate terms of deg
 challenges; a point with `nv` coordinates: `open` returns a proof. -/
 theorem open_ok (g γ : F) (β : List F) (ts : List Term) (nv s D m : Nat)
     (hcov : ∀ t, Covered nv s t → t ∈ ts)
-    (ps rs : List (MVPoly F)) (z ξs : List F)
+    (nvp nvr : Nat) (hnvr : nvr ≤ nv) (ps rs : List (MVPoly F)) (z ξs : List F)
     (hps : ∀ p ∈ ps, polyWf p = true ∧ polyVarsBelow nv p = true ∧ degreeMV p ≤ s)
     (hrs : ∀ r ∈ rs, ∀ t ∈ termsOf r, UniCovered nv m t)
     (hξ : ps.length ≤ ξs.length) (hz : nv ≤ z.length) :
-    ∃ π, PST.open (wfCK g γ β ts nv s D m) nv nv ps z rs ξs = .ok π := by
+    ∃ π, PST.open (wfCK g γ β ts nv s D m) nvp nvr ps z rs ξs = .ok π := by
   obtain ⟨c, hc⟩ := combine_ok s [] [] ps rs ξs (fun p hp => (hps p hp).2.2) hξ
   have hnil : ∀ (P : Term → Prop), ∀ t ∈ termsOf ([] : MVPoly F), P t := by
     intro P t ht; simp [termsOf] at ht
@@ -1260,14 +1302,17 @@ theorem open_ok (g γ : F) (β : List F) (ts : List Term) (nv s D m : Nat)
         Nat.le_trans (degree_le_degreeMV p t ht) (hps p hp).2.2⟩)
   have h2 : ∀ t ∈ termsOf c.2.1, UniCovered nv m t :=
     combine_terms_r (UniCovered nv m) s [] [] ps rs ξs c hc (hnil _) hrs
-  have hq1 := divideAtPoint_terms (Covered nv s) (covered_rem nv s) (covered_quot nv s) nv c.1 z h1
-  have hq2 := divideAtPoint_terms (UniCovered nv m) (uniCovered_rem nv m) (uniCovered_quot nv m)
-    nv c.2.1 z h2
-  obtain ⟨w, hw⟩ := msmAll_ok (lookG (wfCK g γ β ts nv s D m).powersOfG) (divideAtPoint nv c.1 z)
+  have hq1 := resizeTo_terms (Covered nv s) nv _
+    (divideAtPoint_terms (Covered nv s) (covered_rem nv s) (covered_quot nv s) nvp c.1 z h1)
+  have hq2 := resizeTo_terms (UniCovered nv m) nv _
+    (divideAtPoint_terms (UniCovered nv m) (uniCovered_rem nv m) (uniCovered_quot nv m)
+      nvr c.2.1 z h2)
+  obtain ⟨w, hw⟩ := msmAll_ok (lookG (wfCK g γ β ts nv s D m).powersOfG)
+    (resizeTo (wfCK g γ β ts nv s D m).numVars (divideAtPoint nvp c.1 z))
     (fun q hq t ht => ⟨g * evalTerm t β, by
       simp only [wfCK, lookG, mapGet_map_of_mem _ ts t (hcov t (hq1 q hq t ht))]⟩)
   have hwlen := msmAll_length _ _ _ hw
-  rw [divideAtPoint_length] at hwlen
+  rw [resizeTo_length] at hwlen
   have hc' : combine (wfCK g γ β ts nv s D m).supportedDegree [] [] ps rs ξs = .ok c := hc
   unfold PST.open
   simp only [hc']
@@ -1277,7 +1322,8 @@ theorem open_ok (g γ : F) (β : List F) (ts : List Term) (nv s D m : Nat)
   · exact ⟨_, rfl⟩
   · obtain ⟨w', hw'⟩ := addHiding_ok
       (gammaBase (wfCK g γ β ts nv s D m).gammaG (wfCK g γ β ts nv s D m).powersOfGammaG) w
-      (divideAtPoint nv c.2.1 z) (by rw [divideAtPoint_length, hwlen])
+      (resizeTo (wfCK g γ β ts nv s D m).numVars (divideAtPoint nvr c.2.1 z))
+      (by rw [resizeTo_length, hwlen])
       (fun q hq t ht => gammaBase_ok γ β nv m t (hq2 q hq t ht))
     simp only [hw']
     rw [if_neg (by omega)]
@@ -1399,6 +1445,134 @@ theorem covered_mem_filter (nv s : Nat) (ts : List Term)
   intro t ht
   simp only [List.mem_filter, decide_eq_true_eq]
   exact ⟨hts t ht, ht.2.2⟩
+
+/-! ### batch_check: the defect is the randomizer-weighted sum of the individual defects -/
+
+/-- `Σₖ wₖ·beta_h[j+k]` -/
+def dotB (bH : List F) : Nat → List F → F
+  | _, [] => 0
+  | j, w :: ws => w * getD' bH j 0 + dotB bH (j + 1) ws
+
+theorem rhsSum_eq (h : F) (bH z : List F) (j : Nat) (w : List F) :
+    rhsSum h bH z j w = dotB bH j w - h * wz z j w := by
+  induction w generalizing j with
+  | nil => simp [rhsSum, dotB, wz]
+  | cons a w ih => simp only [rhsSum, dotB, wz, ih (j + 1)]; ring
+
+theorem twSum_addW (bH : List F) (ρ : F) (j : Nat) (tw w : List F) (hlen : tw.length = w.length) :
+    twSum bH j (addW ρ tw w) = twSum bH j tw - ρ * dotB bH j w := by
+  induction tw generalizing j w with
+  | nil =>
+    cases w with
+    | nil => simp [addW, twSum, dotB]
+    | cons _ _ => simp at hlen
+  | cons t tw ih =>
+    cases w with
+    | nil => simp at hlen
+    | cons a w =>
+      have := ih (j + 1) w (by simpa using hlen)
+      simp only [addW, List.zipWith_cons_cons, twSum, dotB] at this ⊢
+      rw [this]; ring
+
+theorem twSum_replicate_zero (bH : List F) (j n : Nat) : twSum bH j (List.replicate n (0 : F)) = 0 := by
+  induction n generalizing j with
+  | zero => rfl
+  | succ n ih => simp [List.replicate_succ, twSum, ih]
+
+/-- the defects of the individual checks of the combined claims, with the zip-truncation of the
+code -/
+def defectsC (vk : VK F) : List F → List (List F) → List F → List (Proof F) → List F
+  | c :: cs, z :: zs, v :: vs, π :: πs => defectCombined vk c v z π :: defectsC vk cs zs vs πs
+  | _, _, _, _ => []
+
+/-- `Σ ρₖ·dₖ` with `ρ₀ = r`, later randomizers taken from `rs` (missing ones read as 0) -/
+def wsum : F → List F → List F → F
+  | r, rs, d :: ds => r * d + wsum (rs.headD 0) rs.tail ds
+  | _, _, [] => 0
+
+/-- the pairing product `batch_check` evaluates on its accumulators -/
+def accVal (vk : VK F) (a : F × List F × F × F) : F :=
+  twSum vk.betaH 0 a.2.1 + (a.1 - vk.g * a.2.2.1 - vk.gammaG * a.2.2.2) * vk.h
+
+theorem batchAcc_spec (vk : VK F) (nv : Nat) (cs : List F) (zs : List (List F)) (vs : List F)
+    (πs : List (Proof F)) (rs : List F) (ρ : F) (acc : F × List F × F × F)
+    (hacc : acc.2.1.length = nv) (hπ : ∀ π ∈ πs, π.w.length = nv) (hz : ∀ z ∈ zs, nv ≤ z.length) :
+    ∃ acc', batchAcc nv cs zs vs πs rs ρ acc = .ok acc' ∧
+      accVal vk acc' = accVal vk acc + wsum ρ rs (defectsC vk cs zs vs πs) := by
+  induction cs generalizing zs vs πs rs ρ acc with
+  | nil => exact ⟨acc, by simp [batchAcc], by simp [defectsC, wsum]⟩
+  | cons c cs ih =>
+    cases zs with
+    | nil => exact ⟨acc, by simp [batchAcc], by simp [defectsC, wsum]⟩
+    | cons z zs =>
+      cases vs with
+      | nil => exact ⟨acc, by simp [batchAcc], by simp [defectsC, wsum]⟩
+      | cons v vs =>
+        cases πs with
+        | nil => exact ⟨acc, by simp [batchAcc], by simp [defectsC, wsum]⟩
+        | cons π πs =>
+          obtain ⟨tc, tw, gm, ggm⟩ := acc
+          simp only at hacc
+          have hw : π.w.length = nv := hπ π (by simp)
+          have hzl : nv ≤ z.length := hz z (by simp)
+          have hcond : ¬ (π.w.length < nv ∨ π.w.length > z.length) := by omega
+          obtain ⟨acc', h1, h2⟩ := ih zs vs πs rs.tail (rs.headD 0)
+            (tc + (wz z 0 π.w + c) * ρ, addW ρ tw π.w, gm + ρ * v, ggm + ρ * rvVal π.rv)
+            (by simp only [addW, List.length_zipWith, hacc, hw]; omega)
+            (fun p hp => hπ p (by simp [hp])) (fun y hy => hz y (by simp [hy]))
+          refine ⟨acc', by simp only [batchAcc, if_neg hcond, h1], ?_⟩
+          rw [h2]
+          simp only [accVal, defectsC, wsum, defectCombined, rhsSum_eq,
+            twSum_addW vk.betaH ρ 0 tw π.w (by rw [hacc, hw])]
+          ring
+
+/-- **C05 (PST13).** Whenever `batch_check` does not abort (one proof per point, every proof with
+one witness per key variable, points and key long enough), its pairing product is `Σₖ ρₖ·Δₖ`:
+`ρ₀ = 1`, `ρₖ` the verifier's randomizers, `Δₖ` the defect of the individual check of claim `k`. -/
+theorem batchDefect_eq (vk : VK F) (cs : List F) (zs : List (List F)) (vs : List F)
+    (πs : List (Proof F)) (rs : List F) (hlen : πs.length = zs.length)
+    (hbh : vk.numVars ≤ vk.betaH.length) (hπ : ∀ π ∈ πs, π.w.length = vk.numVars)
+    (hz : ∀ z ∈ zs, vk.numVars ≤ z.length) :
+    batchDefect vk cs zs vs πs rs = .ok (wsum 1 rs (defectsC vk cs zs vs πs)) := by
+  obtain ⟨acc', h1, h2⟩ := batchAcc_spec vk vk.numVars cs zs vs πs rs 1
+    (0, List.replicate vk.numVars 0, 0, 0) (by simp) hπ hz
+  unfold batchDefect
+  rw [if_neg (by omega), if_neg (by omega), h1]
+  obtain ⟨tc, tw, gm, ggm⟩ := acc'
+  simp only [accVal, twSum_replicate_zero] at h2
+  simp only
+  rw [h2]; congr 1; ring
+
+theorem wsum_zero (r : F) (rs ds : List F) (h : ∀ d ∈ ds, d = 0) : wsum r rs ds = 0 := by
+  induction ds generalizing r rs with
+  | nil => rfl
+  | cons d ds ih =>
+    simp only [wsum]
+    rw [h d (by simp), ih _ _ (fun x hx => h x (by simp [hx]))]; ring
+
+theorem getD'_headD_tail (rs : List F) (k : Nat) :
+    getD' (rs.headD 0 :: rs.tail) k 0 = getD' rs k 0 := by
+  cases rs with
+  | nil => cases k <;> simp [getD']
+  | cons a t => rfl
+
+/-- one non-zero defect at position `|pre|`: the weighted sum is that defect times its randomizer -/
+theorem wsum_single (r : F) (rs pre post : List F) (d : F) (hpre : ∀ x ∈ pre, x = 0)
+    (hpost : ∀ x ∈ post, x = 0) :
+    wsum r rs (pre ++ d :: post) = getD' (r :: rs) pre.length 0 * d := by
+  induction pre generalizing r rs with
+  | nil =>
+    simp only [List.nil_append, wsum, wsum_zero _ _ post hpost, List.length_nil]
+    simp [getD']
+  | cons a pre ih =>
+    have ha : a = 0 := hpre a (by simp)
+    simp only [List.cons_append, wsum, ha, List.length_cons]
+    rw [ih _ _ (fun x hx => hpre x (by simp [hx]))]
+    have : getD' (r :: rs) (pre.length + 1) 0 = getD' rs pre.length 0 := by simp [getD']
+    rw [this]
+    have h2 : getD' (rs.headD 0 :: rs.tail) pre.length 0 = getD' rs pre.length 0 :=
+      getD'_headD_tail rs pre.length
+    rw [h2]; ring
 
 end Keys
 
